@@ -24,6 +24,11 @@ const (
 
 var mode int
 var active *Exec
+var epoch int
+
+// Epoch identifies the current execution; state left behind in process-wide objects (package-level
+// mutexes) by an abandoned execution is recognised by its stale epoch.
+func Epoch() int { return epoch }
 
 // Cur returns the running execution, or nil when the shims must behave like the real thing.
 func Cur() *Exec {
@@ -126,6 +131,7 @@ func Begin(prefix []int, stepCap int) *Exec {
 	if mode != ModeOff {
 		panic("sched: Begin while another execution is active")
 	}
+	epoch++
 	x := &Exec{prefix: prefix, StepCap: stepCap, yield: make(chan struct{}), Vars: map[string]interface{}{}}
 	active = x
 	mode = ModeActive
@@ -168,6 +174,14 @@ func (x *Exec) CurThread() *Thread { return x.cur }
 func (x *Exec) Threads() []*Thread { return x.threads }
 
 func (t *Thread) Done() bool { return t.done }
+
+// PendingKind reports what the thread is waiting to do ("sleep", "lock", ...).
+func (t *Thread) PendingKind() string {
+	if t.done {
+		return "done"
+	}
+	return t.pending.Kind
+}
 
 // Yield hands the baton back; returns when the scheduler selects this thread again, at which time
 // op.Enabled() held.
